@@ -142,9 +142,10 @@ func (p *fmter) diffFile(ff []Fragment) {
 func tokenSource(tok Token) string {
 	switch tok.Type {
 	case STRING:
-		return fmt.Sprintf("%q", tok.Lit)
+		return quoteString(tok.Lit)
 	case REGEX:
-		return fmt.Sprintf("/%s/", tok.Lit)
+		// the lexer reads "//" inside a regex as an escaped slash
+		return fmt.Sprintf("/%s/", strings.ReplaceAll(tok.Lit, "/", "//"))
 	case DESCRIPTION:
 		return fmt.Sprintf("| %s", tok.Lit)
 	case COMMENT:
@@ -153,6 +154,22 @@ func tokenSource(tok Token) string {
 		return fmt.Sprintf("/*%s*/", tok.Lit)
 	}
 	return tok.Lit
+}
+
+// quoteString writes a string literal using only the escapes the lexer
+// understands: \\, \" and an escaped newline. Everything else is written as is.
+func quoteString(lit string) string {
+	var sb strings.Builder
+	sb.WriteByte('"')
+	for _, r := range lit {
+		switch r {
+		case '\\', '"', '\n':
+			sb.WriteByte('\\')
+		}
+		sb.WriteRune(r)
+	}
+	sb.WriteByte('"')
+	return sb.String()
 }
 
 func (p *fmter) singleLineTokens(src SourceNode, parts ...Token) {
